@@ -408,7 +408,12 @@ func TestVerifReplayTransactionSet(t *testing.T) {
 		cancel2()
 		if errors.Is(err2, ErrDatastoreLocked) {
 			clause := "never_wedged"
-			for _, fn := range []string{fnTS, "(*datastore/types.TransactionManager).Cancel", "(*datastore/types.TransactionManager).Rollback"} {
+			fns := []string{fnTS, "(*datastore/types.TransactionManager).Cancel", "(*datastore/types.TransactionManager).Rollback"}
+			if how == "timer" {
+				// the request that opened the transaction is over: the timer has to fire on its own
+				fns = append(fns, "(*datastore/types.TransactionCancelTimer).Start$1", "(*datastore/types.TransactionCancelTimer).Start", "(*datastore/types.Transaction).StartRollbackTimer")
+			}
+			for _, fn := range fns {
 				fmt.Printf("REPLAY-FAIL fn=%s clause=%s input=%s,rollbackTimeout=60ms,rollbackFails=true,endedBy=%s (cancel error: %v) why=a TransactionSet after the timeout is refused: the datastore is locked with no timer running\n", fn, clause, sc, how, cerr)
 			}
 		}
